@@ -29,7 +29,8 @@ type Handler struct {
 	lockFile  *ControlFile
 	tempFile  *ControlFile
 
-	closed bool
+	created bool
+	closed  bool
 }
 
 func NewHandlerWithoutLock(ctx context.Context, path string, defaultWaitTimeout time.Duration, retryDelay time.Duration) (*Handler, error) {
@@ -107,6 +108,7 @@ func NewHandlerForCreate(path string) (*Handler, error) {
 		return h, closeIsolatedHandler(h, err)
 	}
 	h.fp = fp
+	h.created = true
 	verifhook.At("hold.c.begin", h.path)
 	return h, nil
 }
@@ -178,7 +180,7 @@ func (h *Handler) close() error {
 	}
 	verifhook.At("close.data_closed", h.path)
 
-	if h.openType == ForCreate && Exists(h.path) {
+	if h.openType == ForCreate && h.created && Exists(h.path) {
 		if err := os.Remove(h.path); err != nil {
 			return err
 		}
@@ -275,7 +277,7 @@ func (h *Handler) closeWithErrors() error {
 		}
 	}
 
-	if h.openType == ForCreate && Exists(h.path) {
+	if h.openType == ForCreate && h.created && Exists(h.path) {
 		if err := os.Remove(h.path); err != nil {
 			errs = append(errs, err)
 		}
